@@ -6,7 +6,8 @@ import NasimModel.Props.C18
 
 `_validate_subnets`, `_validate_topology`, `_validate_os / _services / _processes`, `_is_valid_subnet_ID`,
 `_is_valid_host_address`, `_validate_scan_cost`, `_is_valid_firewall_setting`, `_contains_all_required_firewalls`,
-`_validate_firewall`, `_validate_sensitive_hosts` and the step-limit test of `nasim/scenarios/loader.py`, translated
+`_validate_firewall`, `_validate_sensitive_hosts`, `_validate_single_exploit / _privesc`, `_validate_exploits /
+_privescs` and the step-limit test of `nasim/scenarios/loader.py`, translated
 from their source text over the YAML AST (`Generated/SrcLoad.lean`), accept exactly what the model's `subnetsOk`,
 `topologyOk`, `namesOk`, `validSubnetId`, `validHostAddr`, `scanCostOk`, `stepLimitOf` accept — so the C18 theorems
 about these rules (`C18_subnets`, `C18_topology`, `C18_names`, `C18_scan_cost`, `C18_step_limit`, the address tests
@@ -672,6 +673,347 @@ theorem Src_validate_sensitive (subnets : List Nat) (m : List (Y × Y)) :
         rw [List.range_eq_range', hd, noDup_keys subnets m hall]
         cases pairsNoDup (m.map sensAddr) <;> rfl
     · simp [hl]
+
+
+theorem str_pyEq (a b : String) : (Y.str a).pyEq (.str b) = (a == b) := by
+  simp [Y.pyEq, Y.toRat?]
+
+theorem pyEq_two_keys (y : Y) (k k' : String) (h1 : y.pyEq (.str k) = true) (h2 : y.pyEq (.str k') = true) : k = k' := by
+  cases y <;> simp [Y.pyEq, Y.toRat?] at h1 h2
+  rw [← h1, ← h2]
+
+theorem getKey_set_same (m : List (Y × Y)) (k : String) (v : Y) :
+    getKey (mapOf (PyRt.ymapSet (.map m) k v)) k = some v := by
+  unfold PyRt.ymapSet getKey
+  simp only [mapOf]
+  by_cases hany : m.any (fun p => p.1.pyEq (.str k)) = true
+  · simp only [hany, if_true]
+    induction m with
+    | nil => simp at hany
+    | cons p t ih =>
+      simp only [List.map_cons, List.find?_cons]
+      by_cases hp : p.1.pyEq (.str k) = true
+      · simp [hp]
+      · simp only [Bool.not_eq_true] at hp
+        simp only [hp, Bool.false_eq_true, if_false]
+        apply ih
+        simpa [List.any_cons, hp] using hany
+  · simp only [hany, Bool.false_eq_true, if_false]
+    simp only [Bool.not_eq_true] at hany
+    rw [List.find?_append]
+    have : m.find? (fun p => p.1.pyEq (.str k)) = none := by
+      rw [List.find?_eq_none]
+      intro p hp
+      have := List.any_eq_false.mp hany p hp
+      simpa using this
+    simp [this, str_pyEq]
+
+theorem getKey_set_other (m : List (Y × Y)) (k k' : String) (v : Y) (hne : k ≠ k') :
+    getKey (mapOf (PyRt.ymapSet (.map m) k v)) k' = getKey m k' := by
+  unfold PyRt.ymapSet getKey
+  simp only [mapOf]
+  by_cases hany : m.any (fun p => p.1.pyEq (.str k)) = true
+  · simp only [hany, if_true]
+    clear hany
+    induction m with
+    | nil => rfl
+    | cons p t ih =>
+      simp only [List.map_cons, List.find?_cons]
+      by_cases hp : p.1.pyEq (.str k) = true
+      · simp only [hp, if_true]
+        by_cases hp' : p.1.pyEq (.str k') = true
+        · exact absurd (pyEq_two_keys p.1 k k' hp hp') hne
+        · simp only [Bool.not_eq_true] at hp'
+          simp only [hp', Bool.false_eq_true, if_false]
+          exact ih
+      · simp only [Bool.not_eq_true] at hp
+        simp only [hp, Bool.false_eq_true, if_false]
+        by_cases hp' : p.1.pyEq (.str k') = true
+        · simp [hp']
+        · simp only [Bool.not_eq_true] at hp'
+          simp only [hp', Bool.false_eq_true, if_false]
+          exact ih
+  · simp only [hany, Bool.false_eq_true, if_false]
+    rw [List.find?_append]
+    have hk : ((Y.str k).pyEq (.str k')) = false := by
+      rw [str_pyEq]; simpa using hne
+    cases m.find? (fun p => p.1.pyEq (.str k')) <;> simp [hk]
+
+theorem ite_not_false (c b : Bool) : (if (!c) = true then false else b) = (c && b) := by
+  cases c <;> rfl
+
+theorem L_os (osL : List Y) (osv : Y) :
+    (osv.isStr && ((if PyRt.lowerIsNone osv = true then Y.null else osv).isNull ||
+      pyIn (if PyRt.lowerIsNone osv = true then Y.null else osv) osL)) = (osField osL osv).isSome := by
+  cases osv <;> simp [Y.isStr, osField, PyRt.lowerIsNone]
+  rename_i s
+  by_cases h : isNoneWord s = true
+  · simp [h, Y.isNull]
+  · simp only [Bool.not_eq_true] at h
+    simp only [h, Bool.false_eq_true, if_false, Y.isNull, Bool.false_or]
+    cases pyIn (Y.str s) osL <;> rfl
+
+theorem L_acc (acc : Y) :
+    ((acc.isStr || acc.intLike?.isSome) && pyIn acc SrcLoad.VALID_ACCESS_VALUES) = (accessOf acc).isSome := by
+  unfold SrcLoad.VALID_ACCESS_VALUES pyIn accessOf
+  cases acc with
+  | str s =>
+    simp only [Y.isStr, Bool.true_or, Bool.true_and, List.any_cons, List.any_nil, str_pyEq, Bool.or_false]
+    have h1 : (Y.str s).pyEq (Y.int 1) = false := by simp [Y.pyEq, Y.toRat?]
+    have h2 : (Y.str s).pyEq (Y.int 2) = false := by simp [Y.pyEq, Y.toRat?]
+    simp only [h1, h2, Bool.or_false]
+    by_cases hu : s = "user"
+    · subst hu; rfl
+    · by_cases hr : s = "root"
+      · subst hr; rfl
+      · have a1 : (s == "user") = false := by simpa using hu
+        have a2 : (s == "root") = false := by simpa using hr
+        simp [a1, a2]
+  | int i =>
+    simp only [Y.isStr, Y.intLike?, Option.isSome_some, Bool.or_true, Bool.true_and, List.any_cons, List.any_nil, Bool.or_false]
+    have h1 : (Y.int i).pyEq (Y.str "user") = false := by simp [Y.pyEq, Y.toRat?]
+    have h2 : (Y.int i).pyEq (Y.str "root") = false := by simp [Y.pyEq, Y.toRat?]
+    have h3 : (Y.int i).pyEq (Y.int 1) = (i == 1) := by
+      simp only [Y.pyEq, Y.toRat?]
+      rw [Bool.eq_iff_iff]; simp only [beq_iff_eq]
+      exact Rat.intCast_inj
+    have h4 : (Y.int i).pyEq (Y.int 2) = (i == 2) := by
+      simp only [Y.pyEq, Y.toRat?]
+      rw [Bool.eq_iff_iff]; simp only [beq_iff_eq]
+      exact Rat.intCast_inj
+    simp only [h1, h2, h3, h4, Bool.false_or]
+    by_cases a1 : i = 1
+    · subst a1; rfl
+    · by_cases a2 : i = 2
+      · subst a2; rfl
+      · have b1 : (i == 1) = false := by simpa using a1
+        have b2 : (i == 2) = false := by simpa using a2
+        simp [b1, b2, a1, a2]
+  | bool b => cases b <;> simp [Y.isStr, Y.intLike?, Y.pyEq, Y.toRat?] <;> decide
+  | num q => simp [Y.isStr, Y.intLike?]
+  | null => simp [Y.isStr, Y.intLike?]
+  | list l => simp [Y.isStr, Y.intLike?]
+  | map m => simp [Y.isStr, Y.intLike?]
+
+theorem L_prob (y : Y) : (y.toRat?.isSome && (PyRt.yge y 0 && PyRt.yle y 1)) =
+    (match y.toRat? with | some q => decide (0 ≤ q) && decide (q ≤ 1) | none => false) := by
+  unfold PyRt.yge PyRt.yle
+  cases y.toRat? <;> simp
+
+theorem L_cost (y : Y) : (y.toRat?.isSome && PyRt.ygt y 0) =
+    (match y.toRat? with | some q => decide (0 < q) | none => false) := by
+  unfold PyRt.ygt
+  cases y.toRat? <;> simp
+
+theorem ymapGet_map (m : List (Y × Y)) (k : String) : PyRt.ymapGet (.map m) k = (getKey m k).getD .null := rfl
+theorem ymapHas_map (m : List (Y × Y)) (k : String) : PyRt.ymapHas (.map m) k = (getKey m k).isSome := rfl
+
+theorem ymapGet_set_same (m : List (Y × Y)) (k : String) (v : Y) : PyRt.ymapGet (PyRt.ymapSet (.map m) k v) k = v := by
+  unfold PyRt.ymapGet; rw [getKey_set_same]; rfl
+theorem ymapGet_set_other (m : List (Y × Y)) (k k' : String) (v : Y) (h : k ≠ k') :
+    PyRt.ymapGet (PyRt.ymapSet (.map m) k v) k' = PyRt.ymapGet (.map m) k' := by
+  unfold PyRt.ymapGet; rw [getKey_set_other m k k' v h]; rfl
+
+/-- `_validate_single_exploit` accepts exactly the definitions the model parses -/
+theorem Src_validate_single_exploit (services osL : List Y) (name e : Y) :
+    SrcLoad.ScenarioLoader._validate_single_exploit services osL name e = (parseExploit services osL name e).isSome := by
+  unfold SrcLoad.ScenarioLoader._validate_single_exploit parseExploit
+  cases e with
+  | map m =>
+    simp only [Y.isMap, Bool.not_true, Bool.false_eq_true, if_false, ymapHas_map]
+    cases hs : getKey m "service" with
+    | none => simp
+    | some svc =>
+      cases ho : getKey m "os" with
+      | none => simp [ymapGet_map, hs]
+      | some osv =>
+        cases hp : getKey m "prob" with
+        | none => simp [ymapGet_map, hs, ho]
+        | some prob =>
+          cases hc : getKey m "cost" with
+          | none => simp [ymapGet_map, hs, ho, hp]
+          | some cost =>
+            cases ha : getKey m "access" with
+            | none => simp [ymapGet_map, hs, ho, hp, hc]
+            | some acc =>
+              have g1 : PyRt.ymapGet (.map m) "service" = svc := by rw [ymapGet_map, hs]; rfl
+              have g2 : PyRt.ymapGet (.map m) "os" = osv := by rw [ymapGet_map, ho]; rfl
+              have g3 : PyRt.ymapGet (.map m) "prob" = prob := by rw [ymapGet_map, hp]; rfl
+              have g4 : PyRt.ymapGet (.map m) "cost" = cost := by rw [ymapGet_map, hc]; rfl
+              have g5 : PyRt.ymapGet (.map m) "access" = acc := by rw [ymapGet_map, ha]; rfl
+              simp only [Option.isSome_some, Bool.not_true, Bool.false_eq_true, if_false, g1, g2, g3, g4, g5]
+              -- the dictionary after the OS normalisation
+              have e_os : PyRt.ymapGet (if PyRt.lowerIsNone osv = true then PyRt.ymapSet (.map m) "os" Y.null else .map m) "os" =
+                  (if PyRt.lowerIsNone osv = true then Y.null else osv) := by
+                split
+                · exact ymapGet_set_same m "os" Y.null
+                · exact g2
+              have e_pr : PyRt.ymapGet (if PyRt.lowerIsNone osv = true then PyRt.ymapSet (.map m) "os" Y.null else .map m) "prob" = prob := by
+                split
+                · rw [ymapGet_set_other m "os" "prob" Y.null (by decide)]; exact g3
+                · exact g3
+              have e_co : PyRt.ymapGet (if PyRt.lowerIsNone osv = true then PyRt.ymapSet (.map m) "os" Y.null else .map m) "cost" = cost := by
+                split
+                · rw [ymapGet_set_other m "os" "cost" Y.null (by decide)]; exact g4
+                · exact g4
+              have e_ac : PyRt.ymapGet (if PyRt.lowerIsNone osv = true then PyRt.ymapSet (.map m) "os" Y.null else .map m) "access" = acc := by
+                split
+                · rw [ymapGet_set_other m "os" "access" Y.null (by decide)]; exact g5
+                · exact g5
+              simp only [e_os, e_pr, e_co, e_ac, ite_not_false]
+              have hO := L_os osL osv
+              have hA := L_acc acc
+              have hP := L_prob prob
+              have hC := L_cost cost
+              cases h1 : svc.isStr
+              · simp
+              · simp only [Bool.true_and, Bool.not_true, Bool.false_eq_true, if_false]
+                cases hos : osField osL osv with
+                | none =>
+                  rw [hos] at hO
+                  simp only [Option.isSome_none] at hO
+                  cases h2 : osv.isStr
+                  · simp
+                  · rw [h2] at hO
+                    simp only [Bool.true_and] at hO
+                    simp [hO]
+                | some os' =>
+                  rw [hos] at hO
+                  simp only [Option.isSome_some, Bool.and_eq_true] at hO
+                  simp only [hO.1, hO.2, Bool.true_and]
+                  cases hpr : prob.toRat? with
+                  | none => simp
+                  | some p =>
+                    rw [hpr] at hP
+                    simp only [Option.isSome_some, Bool.true_and] at hP
+                    cases hco : cost.toRat? with
+                    | none => simp
+                    | some c =>
+                      rw [hco] at hC
+                      simp only [Option.isSome_some, Bool.true_and] at hC
+                      cases hac : accessOf acc with
+                      | none =>
+                        rw [hac] at hA
+                        simp only [Option.isSome_none] at hA
+                        simp only [Option.isSome_some, Bool.true_and]
+                        cases h5 : (acc.isStr || acc.intLike?.isSome)
+                        · simp
+                        · rw [h5] at hA; simp only [Bool.true_and] at hA
+                          simp [hA]
+                      | some a =>
+                        rw [hac] at hA
+                        simp only [Option.isSome_some, Bool.and_eq_true] at hA
+                        simp only [Option.isSome_some, Bool.true_and, hA.1, hA.2, hP, hC]
+                        cases pyIn svc services <;> cases decide (0 ≤ p) <;> cases decide (p ≤ 1) <;> cases decide (0 < c) <;> rfl
+  | _ => rfl
+
+/-- `_validate_single_privesc` accepts exactly the definitions the model parses -/
+theorem Src_validate_single_privesc (processes osL : List Y) (name e : Y) :
+    SrcLoad.ScenarioLoader._validate_single_privesc processes osL name e = (parsePrivesc processes osL name e).isSome := by
+  unfold SrcLoad.ScenarioLoader._validate_single_privesc parsePrivesc
+  cases e with
+  | map m =>
+    simp only [Y.isMap, Bool.not_true, Bool.false_eq_true, if_false, ymapHas_map]
+    cases hs : getKey m "process" with
+    | none => simp
+    | some proc =>
+      cases ho : getKey m "os" with
+      | none => simp [ymapGet_map, hs]
+      | some osv =>
+        cases hp : getKey m "prob" with
+        | none => simp [ymapGet_map, hs, ho]
+        | some prob =>
+          cases hc : getKey m "cost" with
+          | none => simp [ymapGet_map, hs, ho, hp]
+          | some cost =>
+            cases ha : getKey m "access" with
+            | none => simp [ymapGet_map, hs, ho, hp, hc]
+            | some acc =>
+              have g1 : PyRt.ymapGet (.map m) "process" = proc := by rw [ymapGet_map, hs]; rfl
+              have g2 : PyRt.ymapGet (.map m) "os" = osv := by rw [ymapGet_map, ho]; rfl
+              have g3 : PyRt.ymapGet (.map m) "prob" = prob := by rw [ymapGet_map, hp]; rfl
+              have g4 : PyRt.ymapGet (.map m) "cost" = cost := by rw [ymapGet_map, hc]; rfl
+              have g5 : PyRt.ymapGet (.map m) "access" = acc := by rw [ymapGet_map, ha]; rfl
+              simp only [Option.isSome_some, Bool.not_true, Bool.false_eq_true, if_false, g1, g2, g3, g4, g5]
+              -- the dictionary after the OS normalisation
+              have e_os : PyRt.ymapGet (if PyRt.lowerIsNone osv = true then PyRt.ymapSet (.map m) "os" Y.null else .map m) "os" =
+                  (if PyRt.lowerIsNone osv = true then Y.null else osv) := by
+                split
+                · exact ymapGet_set_same m "os" Y.null
+                · exact g2
+              have e_pr : PyRt.ymapGet (if PyRt.lowerIsNone osv = true then PyRt.ymapSet (.map m) "os" Y.null else .map m) "prob" = prob := by
+                split
+                · rw [ymapGet_set_other m "os" "prob" Y.null (by decide)]; exact g3
+                · exact g3
+              have e_co : PyRt.ymapGet (if PyRt.lowerIsNone osv = true then PyRt.ymapSet (.map m) "os" Y.null else .map m) "cost" = cost := by
+                split
+                · rw [ymapGet_set_other m "os" "cost" Y.null (by decide)]; exact g4
+                · exact g4
+              have e_ac : PyRt.ymapGet (if PyRt.lowerIsNone osv = true then PyRt.ymapSet (.map m) "os" Y.null else .map m) "access" = acc := by
+                split
+                · rw [ymapGet_set_other m "os" "access" Y.null (by decide)]; exact g5
+                · exact g5
+              simp only [e_os, e_pr, e_co, e_ac, ite_not_false]
+              have hO := L_os osL osv
+              have hA := L_acc acc
+              have hP := L_prob prob
+              have hC := L_cost cost
+              cases h1 : proc.isStr
+              · simp
+              · simp only [Bool.true_and, Bool.not_true, Bool.false_eq_true, if_false]
+                cases hos : osField osL osv with
+                | none =>
+                  rw [hos] at hO
+                  simp only [Option.isSome_none] at hO
+                  cases h2 : osv.isStr
+                  · simp
+                  · rw [h2] at hO
+                    simp only [Bool.true_and] at hO
+                    simp [hO]
+                | some os' =>
+                  rw [hos] at hO
+                  simp only [Option.isSome_some, Bool.and_eq_true] at hO
+                  simp only [hO.1, hO.2, Bool.true_and]
+                  cases hpr : prob.toRat? with
+                  | none => simp
+                  | some p =>
+                    rw [hpr] at hP
+                    simp only [Option.isSome_some, Bool.true_and] at hP
+                    cases hco : cost.toRat? with
+                    | none => simp
+                    | some c =>
+                      rw [hco] at hC
+                      simp only [Option.isSome_some, Bool.true_and] at hC
+                      cases hac : accessOf acc with
+                      | none =>
+                        rw [hac] at hA
+                        simp only [Option.isSome_none] at hA
+                        simp only [Option.isSome_some, Bool.true_and]
+                        cases h5 : (acc.isStr || acc.intLike?.isSome)
+                        · simp
+                        · rw [h5] at hA; simp only [Bool.true_and] at hA
+                          simp [hA]
+                      | some a =>
+                        rw [hac] at hA
+                        simp only [Option.isSome_some, Bool.and_eq_true] at hA
+                        simp only [Option.isSome_some, Bool.true_and, hA.1, hA.2, hP, hC]
+                        cases pyIn proc processes <;> cases decide (0 ≤ p) <;> cases decide (p ≤ 1) <;> cases decide (0 < c) <;> rfl
+  | _ => rfl
+
+
+/-- `_validate_exploits` / `_validate_privescs`: every definition of the section is accepted -/
+theorem Src_validate_defs (services processes osL : List Y) (m : List (Y × Y)) :
+    SrcLoad.ScenarioLoader._validate_exploits services osL m = m.all (fun kv => (parseExploit services osL kv.1 kv.2).isSome) ∧
+    SrcLoad.ScenarioLoader._validate_privescs processes osL m = m.all (fun kv => (parsePrivesc processes osL kv.1 kv.2).isSome) := by
+  constructor
+  · unfold SrcLoad.ScenarioLoader._validate_exploits
+    rw [forEach_all' m _ (fun kv => (parseExploit services osL kv.1 kv.2).isSome)
+      (fun kv _ => by obtain ⟨k, v⟩ := kv; simp only [Src_validate_single_exploit])]
+    cases m.all (fun kv => (parseExploit services osL kv.1 kv.2).isSome) <;> rfl
+  · unfold SrcLoad.ScenarioLoader._validate_privescs
+    rw [forEach_all' m _ (fun kv => (parsePrivesc processes osL kv.1 kv.2).isSome)
+      (fun kv _ => by obtain ⟨k, v⟩ := kv; simp only [Src_validate_single_privesc])]
+    cases m.all (fun kv => (parsePrivesc processes osL kv.1 kv.2).isSome) <;> rfl
 
 
 end NASim
